@@ -5,7 +5,7 @@ open Lean
 namespace SaoVerif
 
 deriving instance FromJson, ToJson for Order, RenewInfo, Shard, Metadata, ModelKey, ModelEntry, Node, Pledge, Pool,
-  NodeParams, Worker, Fault, FaultIdx, ValidatorV, DelegationV, UnbondingV, StakingView, DidEntry, DidState, State, Env,
+  NodeParams, Worker, Fault, FaultIdx, ValidatorV, DelegationV, UnbondingV, RedelegationV, StakingView, DidEntry, DidState, State, Env,
   ResetMsg, Proposal, StoreMsg, FaultIn, AccId, PayAddrMsg, BindingMsg, DidUpdateMsg
 
 def getF {α : Type} [FromJson α] (j : Json) (k : String) : Except String α :=
@@ -45,6 +45,7 @@ def parseOp1 (j : Json) : Except String Op := do
   | "didupdate" => pure (.didupdate (← fromJson? j))
   | "delegate" => pure (.delegate (← getF j "creator") (← getF j "val") (← getF j "amount"))
   | "undelegate" => pure (.undelegate (← getF j "creator") (← getF j "val") (← getF j "amount"))
+  | "redelegate" => pure (.redelegate (← getF j "creator") (← getF j "val") (← getF j "val2") (← getF j "amount"))
   | "restart" => pure .restart
   | "genesis" => pure .genesis
   | other => pure (.unmodelled other)
